@@ -52,8 +52,17 @@ def coherent(m, expected):
             problems.append("listed AVP code %d has %d names" % (x.get_code(), n))
     if m.has_avp("no_such_thing_avp"):
         problems.append("has_avp true for an absent name")
-    if m.header.get_length() != len(m.dump()):
-        problems.append("Message Length %d != %d bytes" % (m.header.get_length(), len(m.dump())))
+    if isinstance(m, B.DiameterMessage):
+        if m.header.get_length() != len(m.dump()):
+            problems.append("Message Length %d != %d bytes" % (m.header.get_length(), len(m.dump())))
+    else:
+        # a Grouped AVP: its data is the concatenation of its members' encodings, its AVP Length follows
+        want = b"".join(x.dump() for x in listed)
+        if (m.data or b"") != want:
+            problems.append("Grouped data (%d bytes) is not the concatenated member encodings (%d bytes)"
+                            % (len(m.data or b""), len(want)))
+        elif m.get_length() != 8 + len(want) or len(m.dump()) != 8 + len(want):
+            problems.append("Grouped AVP Length %d / dump %d != %d" % (m.get_length(), len(m.dump()), 8 + len(want)))
     return problems
 
 
@@ -79,7 +88,11 @@ def ops_for(m, expected, pool):
     def do_refresh(m, exp):
         m.refresh()
         return exp
-    out.append(("refresh()", do_refresh))
+    if isinstance(m, B.DiameterMessage):
+        # (GroupedType.refresh is not part of the property -- C11 is about messages, its anchors name
+        # GroupedType.append/pop/cleanup -- and is dead on the pinned tree: it assigns to a non-existent
+        # `self.header` and raises AttributeError whenever it has anything to do; noted in DESIGN.md)
+        out.append(("refresh()", do_refresh))
     for pair in (("A1", "R"), ("U1", "U2")):
         def do_extend(m, exp, pair=pair):
             xs = [ALPHABET[p]() for p in pair]
@@ -156,14 +169,25 @@ def kf_suffix_reuse(label, m, expected):
     return False
 
 
-def run_sequences(depth, report_limit=5):
+def _new_message():
+    return B.DiameterMessage()
+
+
+def _new_grouped():
+    from bromelia.avps import FailedAvpAVP
+    g = FailedAvpAVP([B.DiameterAVP(code=60009, data=b"seed")])
+    g.cleanup()
+    return g
+
+
+def run_sequences(depth, report_limit=5, make=_new_message):
     failures, known, nseq, nops = [], 0, 0, 0
     tainted_prefixes = set()
 
     def rec(history, depth_left):
         nonlocal known, nseq, nops
         # rebuild the state by replaying the history on fresh real objects
-        m = B.DiameterMessage()
+        m = make()
         exp = []
         for lbl in history:
             f = dict(ops_for(m, exp, None))[lbl]
@@ -172,7 +196,7 @@ def run_sequences(depth, report_limit=5):
             nseq += 1
             return
         for lbl, f in ops_for(m, exp, None):
-            m2 = B.DiameterMessage()
+            m2 = make()
             e2 = []
             for h in history:
                 e2 = dict(ops_for(m2, e2, None))[h](m2, e2)
@@ -205,8 +229,68 @@ def name_map_coherence():
     return [("coherent-after-every-operation-sequence", not failures, detail)]
 
 
+@table("grouped-name-map-coherence", prop="C11")
+def grouped_name_map_coherence():
+    """the same campaign on a Grouped AVP (Failed-AVP): GroupedType.append / extend / pop / cleanup / avps= /
+    update_key keep names, member list and the Grouped data (== concatenated member encodings)
+    coherent; the known pop-equal / suffix-reuse histories are the same code pattern and are skipped"""
+    depth = 3 if os.environ.get("VERIF_TIER") == "thorough" else 2
+    failures, known, nseq, nops = run_sequences(depth, make=_new_grouped)
+    detail = {"depth": depth, "operations_checked": nops, "known_finding_histories_skipped": known,
+              "failing": [{"history": h, "problems": p} for h, p in failures[:6]]}
+    return [("grouped-coherent-after-every-operation-sequence", not failures, detail)]
+
+
+grouped_name_map_coherence.bounded = ("operation sequences of length <= 2 (quick) / 3 (thorough) on a Grouped AVP over the "
+                                      "8-AVP alphabet; native run-time evaluation of the representation invariant")
+
 name_map_coherence.bounded = ("operation sequences of length <= 3 (quick) / 4 (thorough) over an 8-AVP alphabet, "
                               "on the real classes (native run-time evaluation of the representation invariant)")
+
+
+@table("bulk-update-positions", prop="C11")
+def bulk_update_positions():
+    """update_avps({name: value}) on messages holding 1..3 AVPs of one kind -- equal-valued ones included --
+    between other AVPs: exactly the ADDRESSED list position carries the new value afterwards, every other
+    position keeps its bytes, the order is unchanged, the name yields the new value, and Message Length is
+    the serialised size.  (That the name and the list then hold two different OBJECTS is the known finding
+    KF-C11-update-avp and is not re-judged here: values and positions are.)"""
+    import itertools as _it
+    from bromelia.avps import HostIpAddressAVP, SupportedVendorIdAVP, UserNameAVP
+    bad, n = [], 0
+    kinds = [("host_ip_address", HostIpAddressAVP, ["10.0.0.1", "10.0.0.1", "10.0.0.2"], "10.9.9.9"),
+             ("supported_vendor_id", SupportedVendorIdAVP, [10415, 10415, 10415], 193)]
+    for base, cls, vals, new in kinds:
+        for k in (1, 2, 3):
+            for j in range(k):
+                for lead in (False, True):
+                    n += 1
+                    try:
+                        items = ([UserNameAVP("u")] if lead else []) + [cls(v) for v in vals[:k]] + [OriginHostAVP("h")]
+                        m = B.DiameterMessage(B.DiameterHeader(), list(items))
+                        before = [a.dump() for a in m.avps]
+                        key = base if j == 0 else "%s__%d" % (base, j)
+                        m.update_avps({key: new})
+                        after = [a.dump() for a in m.avps]
+                        pos = j + (1 if lead else 0)
+                        want = list(before)
+                        want[pos] = cls(new).dump()
+                        named = getattr(m, get_name(base, j))
+                        ok = after == want and named.dump() == want[pos] and m.header.get_length() == len(m.dump())
+                    except BaseException as e:  # noqa
+                        ok, after, want = False, "raised %s" % type(e).__name__, None
+                    if not ok:
+                        bad.append({"kind": base, "count": k, "addressed": j, "lead": lead,
+                                    "after": [x.hex() if isinstance(x, bytes) else x for x in after] if isinstance(after, list) else after,
+                                    "want": [x.hex() for x in want] if want else None})
+    return [("exactly-the-addressed-position-is-rewritten", not bad, {"checked": n, "failing": bad[:4]})]
+
+
+def get_name(base, j):
+    return "%s_avp" % base if j == 0 else "%s_avp__%d" % (base, j)
+
+
+bulk_update_positions.bounded = "1..3 AVPs of one kind (equal values included), each position addressed once; native"
 
 
 # =========================================================================================
